@@ -15,22 +15,17 @@ impl GC {
 }
 
 impl Compiler {
-    /// a statement generator as compile_program sees it: it may fail, and whatever it does, it does to this compiler
-    #[verifier::external_body]
-    fn compile_statement(&mut self, stmt: &Stmt) -> (r: Result<(), Error>)
-        ensures old(self).constants@.len() <= final(self).constants@.len()
-    { unimplemented!() }
-
     /// O17.1a  compile_program: on success the code buffer has been MOVED out (the compiler's own buffer is empty
     /// for the next program), the code handed out ends with Halt, and the constants handed out are all the
     /// compiler's constants
     fn compile_program(&mut self, ast: &Vec<Stmt>) -> (r: Result<Bytecode, Error>)
+        requires gen_inv(*old(self))
         ensures
             //@VACUITY
             r is Ok ==> (final(self).instructions@.len() == 0 && r->Ok_0.instructions@.len() > 0 && r->Ok_0.instructions@.last() == opcode_byte(OpCode::Halt)
-                && r->Ok_0.constants@ == final(self).constants@),
+                && r->Ok_0.constants@ == final(self).constants@ && final(self).last_instruction == Some(OpCode::Halt)),
     {
-//@LOOP 1 invariant true
+//@LOOP 1 invariant gen_inv(*self)
 //@LOOP 2 invariant self.instructions@.len() > 0, self.instructions@.last() == opcode_byte(OpCode::Halt)
 //@BODY file=compiler.rs fn=compile_program impl=Compiler sig="fn compile_program(&mut self, ast: &BlockStmt) -> Result<Bytecode, Error>" rules="R1;R4;R4s;R11"
     }
@@ -39,11 +34,13 @@ impl Compiler {
     /// no open loop and no open function / block context behind (only declarations it completed in the global
     /// scope); a program that compiles leaves an empty code buffer. Either way the next program starts clean.
     pub fn compile_ast(&mut self, ast: &Vec<Stmt>) -> (r: Result<Bytecode, Error>)
+        requires gen_inv(*old(self))
         ensures
             //@VACUITY
             final(self).instructions@.len() == 0,
             r is Err ==> (final(self).last_instruction is None && final(self).loop_contexts@.len() == 0),
             r is Ok ==> (r->Ok_0.instructions@.len() > 0 && r->Ok_0.instructions@.last() == opcode_byte(OpCode::Halt)),
+            gen_inv(*final(self)),   // so the NEXT compile_ast call may assume it again
     {
 //@BODY file=compiler.rs fn=compile_ast impl=Compiler sig="pub fn compile_ast(&mut self, ast: &BlockStmt) -> Result<Bytecode, Error>" rules="R1;R4"
     }
